@@ -382,6 +382,35 @@ package ugo
 //@ loop 0 invariant forall k string :: verifrt.Visited(m, k) ==> specInSet(m, k)
 //@ property C13
 
+//@ func (*SymbolTable).hasAnyShadowedBuiltins
+//@ property C13
+
+//@ func (*SymbolTable).initDisabledBuiltinsMap
+//@ params st
+//@ requires st != nil && rootOfDef()
+//@ ensures[nonnil] rootOf(st).disabledBuiltins != nil
+//@ ensures[same]   old(rootOf(st).disabledBuiltins) != nil ==> verifrt.SameRef(rootOf(st).disabledBuiltins, old(rootOf(st).disabledBuiltins))
+//@ ensures[empty]  old(rootOf(st).disabledBuiltins) == nil ==> forall k string :: !specDisabled(rootOf(st), k)
+//@ ensures[fresh]  old(rootOf(st).disabledBuiltins) == nil ==> verifrt.Fresh(rootOf(st).disabledBuiltins)
+//@ modifies rootOf(st).disabledBuiltins
+//@ property C13
+
+// The optimizer's private evaluator table gets every name that is disabled
+// for the compiler (the names shadowed in src's scopes are added as well;
+// that half is not stated here).
+//@ func optimCopyBuiltinStates
+//@ params dest src
+//@ requires dest != nil && rootOfDef()
+//@ ensures[disabled] src != nil ==> forall k string :: specDisabled(rootOf(src), k) ==> specDisabled(rootOf(dest), k)
+//@ loop 0 invariant root == rootOf(dest) && root.disabledBuiltins != nil
+//@ loop 0 invariant forall k string :: verifrt.Visited(otherMap, k) ==> specInSet(root.disabledBuiltins, k)
+//@ loop 1 invariant root == rootOf(dest) && root.disabledBuiltins != nil
+//@ loop 1 invariant forall k string :: verifrt.Visited(otherMap, k) ==> specInSet(root.disabledBuiltins, k)
+//@ loop 2 invariant root == rootOf(dest) && root.disabledBuiltins != nil
+//@ loop 2 invariant forall k string :: verifrt.Visited(otherMap, k) ==> specInSet(root.disabledBuiltins, k)
+//@ modifies rootOf(dest).disabledBuiltins, rootOf(dest).disabledBuiltins[*]
+//@ property C13
+
 // Root table: a cached builtin symbol exists only for names that are not
 // disabled; resolving returns a builtin only for such names; disabling names
 // re-establishes the invariant (the cache is purged).
